@@ -161,7 +161,7 @@ func runC11(h History) *Viol {
 // crosses a 255->0 carry or the 2^24-1 -> 0 wrap.
 func genC11(seed, index uint64, start uint32, buf []Step) (History, bool) {
 	r := &Rng{s: mix(seed, index)}
-	h := History{Property: "C11", Seed: seed, Index: index, Obs: int(index % 3)}
+	h := History{Property: "C11", Seed: seed, Index: index, Obs: int((index + index/mod24) % 3)}
 	ninst := 1
 	if index%8 == 7 {
 		ninst = 2 + r.Intn(2)
@@ -313,7 +313,7 @@ var c11Engine = &engine{
 	prop: "C11", sub: "c11",
 	total: func(tier string) uint64 {
 		if tier == "thorough" {
-			return mod24
+			return 3 * mod24 // every start state once per observation mode
 		}
 		return 1 << 16
 	},
@@ -373,11 +373,11 @@ func checkC11(tier string, seed uint64) int {
 			"evaluations":         res.histories,
 			"distinct_nontrivial": res.distinct,
 			"rule": "one seeded operation history (8-44 steps over Set/SetSQN/SetOverflow/AddOne/Get/SQN/Overflow, 1-3 interleaved instances; every 64th history is a long-run history with bursts of 255..131k increments; state 0 is also entered as the zero value without Set) per start state; " +
-				"thorough enumerates every one of the 2^24 start states, quick draws 2^16 boundary-biased ones; non-trivial = the history crosses a 255->0 sequence-number carry " +
+				"thorough enumerates every one of the 2^24 start states three times (once per observation mode, different seeded history each time), quick draws 2^16 boundary-biased ones; non-trivial = the history crosses a 255->0 sequence-number carry " +
 				"or the 2^24-1->0 wrap at least once; distinct = distinct start states among those",
 			"samples":                 samples,
 			"exhaustive_start_states": exhaustive,
-			"start_states":            c11Engine.total(tier),
+			"start_states":            map[bool]uint64{true: mod24, false: 1 << 16}[exhaustive],
 			"steps_executed":          res.steps,
 			"nontrivial_histories":    res.nontrivial,
 			"history_classes":         res.classes,
